@@ -1,1 +1,228 @@
-harnesses! {}
+//! C01 — relate() returns the true DE-9IM matrix (PARTIAL: the noded graph is out of reach).
+//!
+//! Decided here: the dimension / boundary-dimension functions (mod-2 rule for multi-line
+//! geometries) of every type against the exact definition, the disjoint-envelope shortcut matrix
+//! built from them (through the hook `geo::kani_hooks::disjoint_matrix`), its transposition under
+//! operand swap and its invariance under re-representation.  `T = i16`.
+use crate::gen::*;
+use crate::oracle::*;
+use crate::Src;
+use geo::coordinate_position::CoordPos;
+use geo::dimensions::{Dimensions, HasDimensions};
+use geo::kani_hooks::disjoint_matrix;
+use geo_types::{Geometry, LineString, MultiLineString, MultiPoint, MultiPolygon, Point, Rect, Triangle};
+
+use Dimensions::{Empty, OneDimensional as D1, TwoDimensional as D2, ZeroDimensional as D0};
+
+/// (dimension, boundary dimension) of a line string given as points
+fn ls_dims(pts: &[P]) -> (Dimensions, Dimensions) {
+    if pts.is_empty() {
+        return (Empty, Empty);
+    }
+    let mut all_eq = true;
+    let mut i = 1;
+    while i < pts.len() {
+        if pts[i] != pts[0] {
+            all_eq = false;
+        }
+        i += 1;
+    }
+    if all_eq {
+        (D0, Empty)
+    } else if pts[0] == pts[pts.len() - 1] {
+        (D1, Empty)
+    } else {
+        (D1, D0)
+    }
+}
+
+fn check_dims<G: HasDimensions>(g: &G, want: (Dimensions, Dimensions), empty: bool) {
+    assert!(g.dimensions() == want.0, "dimensions() differs from the topological dimension");
+    assert!(g.boundary_dimensions() == want.1, "boundary_dimensions() differs from the dimension of the boundary");
+    assert!(g.is_empty() == empty, "is_empty()");
+}
+
+/// the shortcut matrix of (A, B) must be  FF dimA / FF bdimA / dimB bdimB 2
+fn check_matrix<A: HasDimensions, B: HasDimensions>(a: &A, b: &B, da: (Dimensions, Dimensions), db: (Dimensions, Dimensions)) {
+    use CoordPos::{Inside as I, OnBoundary as Bd, Outside as E};
+    let m = disjoint_matrix(a, b);
+    assert!(m.get(I, I) == Empty && m.get(I, Bd) == Empty && m.get(Bd, I) == Empty && m.get(Bd, Bd) == Empty, "disjoint operands must have F in the interior/boundary block");
+    assert!(m.get(I, E) == da.0, "matrix[I][E] is not dim(A)");
+    assert!(m.get(Bd, E) == da.1, "matrix[B][E] is not dim(boundary A)");
+    assert!(m.get(E, I) == db.0, "matrix[E][I] is not dim(B)");
+    assert!(m.get(E, Bd) == db.1, "matrix[E][B] is not dim(boundary B)");
+    assert!(m.get(E, E) == D2, "matrix[E][E] must be 2");
+    // swapping the operands transposes the matrix
+    let t = disjoint_matrix(b, a);
+    let ps = [I, Bd, E];
+    let mut i = 0;
+    while i < 3 {
+        let mut j = 0;
+        while j < 3 {
+            assert!(t.get(ps[i], ps[j]) == m.get(ps[j], ps[i]), "swapping the operands does not transpose the matrix");
+            j += 1;
+        }
+        i += 1;
+    }
+}
+
+pub fn dims_simple<S: Src>(s: &mut S) {
+    let (a, b, c) = (gp(s, 2), gp(s, 2), gp(s, 2));
+    check_dims(&Point(ci(a)), (D0, Empty), false);
+    let l = line_i(a, b);
+    let dl = if a == b { (D0, Empty) } else { (D1, D0) };
+    check_dims(&l, dl, false);
+    // Line vs 2-point LineString: same point set, same dimensions
+    let l2 = ls_i(&[a, b]);
+    check_dims(&l2, dl, false);
+    let r = Rect::new(ci(a), ci(b));
+    let dr = if a == b {
+        (D0, Empty)
+    } else if a.0 == b.0 || a.1 == b.1 {
+        (D1, D0)
+    } else {
+        (D2, D1)
+    };
+    check_dims(&r, dr, false);
+    let t = Triangle(ci(a), ci(b), ci(c));
+    let dt = if orient(a, b, c) != 0 {
+        (D2, D1)
+    } else if a == b && b == c {
+        (D0, Empty)
+    } else {
+        (D1, D0)
+    };
+    check_dims(&t, dt, false);
+    check_matrix(&t, &l, dt, dl);
+    check_matrix(&r, &Point(ci(c)), dr, (D0, Empty));
+    // representation invariance: Geometry wrapper, Rect / Triangle as polygon
+    check_dims(&Geometry::Triangle(t), dt, false);
+    check_dims(&Geometry::Line(l), dl, false);
+    if orient(a, b, c) != 0 {
+        let tp = t.to_polygon();
+        check_dims(&tp, (D2, D1), false);
+        core::mem::forget(tp);
+    }
+    if a.0 != b.0 && a.1 != b.1 {
+        let rp = r.to_polygon();
+        check_dims(&rp, (D2, D1), false);
+        core::mem::forget(rp);
+    }
+    vcover!(a == b && b == c, "all three points equal");
+    vcover!(orient(a, b, c) == 0 && a != b && b != c && a != c, "collinear distinct points");
+    core::mem::forget(l2);
+}
+
+pub fn dims_linestring<S: Src>(s: &mut S, n: usize) {
+    let all = [gp(s, 2), gp(s, 2), gp(s, 2), gp(s, 2)];
+    let pts = &all[..n];
+    let g = ls_i(pts);
+    let want = ls_dims(pts);
+    check_dims(&g, want, n == 0);
+    check_matrix(&g, &Point(ci(all[0])), want, (D0, Empty));
+    let gg = Geometry::LineString(g);
+    check_dims(&gg, want, n == 0);
+    if n >= 3 {
+        vcover!(pts[0] == pts[n - 1] && pts[0] != pts[1], "closed line string (no boundary)");
+        vcover!(want.0 == D0, "all coordinates equal");
+    }
+    core::mem::forget(gg);
+}
+
+pub fn dims_polygon<S: Src>(s: &mut S) {
+    let (a, b, c) = (gp(s, 2), gp(s, 2), gp(s, 2));
+    vassume!(orient(a, b, c) != 0); // valid polygon
+    let p = poly_i(&[a, b, c, a], &[]);
+    check_dims(&p, (D2, D1), false);
+    let e = poly_i(&[], &[]);
+    check_dims(&e, (Empty, Empty), true);
+    check_matrix(&p, &e, (D2, D1), (Empty, Empty));
+    let mp = MultiPolygon(vec![poly_i(&[], &[]), poly_i(&[a, b, c, a], &[])]);
+    check_dims(&mp, (D2, D1), false);
+    let gp_ = Geometry::Polygon(p);
+    check_dims(&gp_, (D2, D1), false);
+    core::mem::forget(gp_);
+    core::mem::forget(e);
+    core::mem::forget(mp);
+}
+
+pub fn dims_multipoint<S: Src>(s: &mut S) {
+    let (a, b) = (gp(s, 2), gp(s, 2));
+    let g = MultiPoint(vec![Point(ci(a)), Point(ci(b))]);
+    check_dims(&g, (D0, Empty), false);
+    let e: MultiPoint<I> = MultiPoint(vec![]);
+    check_dims(&e, (Empty, Empty), true);
+    check_matrix(&g, &e, (D0, Empty), (Empty, Empty));
+    core::mem::forget(g);
+}
+
+/// two 3-point members; boundary by the mod-2 rule over the four member end points.
+/// `closed_loop`: Some(false) excludes / Some(true) selects the class of the listed finding (members
+/// that are open individually but whose end points all pair up)
+pub fn dims_mls<S: Src>(s: &mut S, closed_loop: Option<bool>) {
+    let (a, b, c) = (gp(s, 2), gp(s, 2), gp(s, 2));
+    let (d, e, f_) = (gp(s, 2), gp(s, 2), gp(s, 2));
+    // valid members: non-degenerate simple line strings
+    vassume!(a != b && b != c && d != e && e != f_);
+    let g = MultiLineString(vec![ls_i(&[a, b, c]), ls_i(&[d, e, f_])]);
+    // end points of the open members, with multiplicity
+    let mut ends: [Option<P>; 4] = [None; 4];
+    if a != c {
+        ends[0] = Some(a);
+        ends[1] = Some(c);
+    }
+    if d != f_ {
+        ends[2] = Some(d);
+        ends[3] = Some(f_);
+    }
+    let mut odd = false;
+    let mut i = 0;
+    while i < 4 {
+        if let Some(p) = ends[i] {
+            let mut k = 0;
+            let mut j = 0;
+            while j < 4 {
+                if ends[j] == Some(p) {
+                    k += 1;
+                }
+                j += 1;
+            }
+            if k % 2 == 1 {
+                odd = true;
+            }
+        }
+        i += 1;
+    }
+    let any_open = a != c || d != f_;
+    let cls = crate::known::mls_open_members_forming_closed_loops(any_open, odd);
+    if let Some(k) = closed_loop {
+        vassume!(cls == k);
+    }
+    let want = (D1, if odd { D0 } else { Empty });
+    check_dims(&g, want, false);
+    check_matrix(&g, &Point(ci(a)), want, (D0, Empty));
+    if closed_loop != Some(true) {
+        vcover!(a == c && d == f_, "both members closed: no boundary");
+        vcover!(odd && c == d, "members chained end to start: two boundary points remain");
+    }
+    if closed_loop != Some(false) {
+        vcover!(cls, "open members whose end points pair up (closed loop)");
+    }
+    core::mem::forget(g);
+}
+
+harnesses! {
+    #[kani::unwind(7)] fn c01_dims_simple(s) { dims_simple(s) }
+    #[kani::unwind(6)] fn c01_dims_linestring_0(s) { dims_linestring(s, 0) }
+    #[kani::unwind(6)] fn c01_dims_linestring_1(s) { dims_linestring(s, 1) }
+    #[kani::unwind(6)] fn c01_dims_linestring_3(s) { dims_linestring(s, 3) }
+    #[kani::unwind(6)] fn c01_dims_linestring_4(s) { dims_linestring(s, 4) }
+    #[kani::unwind(7)] fn c01_dims_polygon(s) { dims_polygon(s) }
+    #[kani::unwind(5)] fn c01_dims_multipoint(s) { dims_multipoint(s) }
+    #[kani::unwind(6)] fn c01_dims_mls(s) { dims_mls(s, Some(false)) }
+    #[kani::unwind(6)] fn c01_dims_mls_kf_closed_loop(s) { dims_mls(s, Some(true)) }
+    #[kani::unwind(6)] fn c01_sanity_must_fail(s) {
+        dims_linestring(s, 3);
+        assert!(false, "sanity twin reached its end");
+    }
+}
